@@ -25,6 +25,7 @@ type Env struct {
 	Events []string
 	// Concrete Go types for abstract GraphQL types: default and alternative (pointer types).
 	DefaultImpl, AltImpl reflect.Type
+	RogueImpl            reflect.Type
 	// Yield: insert a scheduling point in every resolver call.
 	Yield bool
 	// OnCall, when set, runs inside every resolver call after the yield (harness hooks:
@@ -196,6 +197,8 @@ func (e *Env) fabricate(t reflect.Type, path, field, outcome string) reflect.Val
 			impl = e.AltImpl
 		case "typednil":
 			return reflect.Zero(e.DefaultImpl).Convert(t)
+		case "rogue":
+			return reflect.New(e.RogueImpl.Elem()).Convert(t)
 		}
 		return e.object(impl, path).Convert(t)
 	case reflect.Slice:
@@ -222,7 +225,7 @@ func (e *Env) fabricate(t reflect.Type, path, field, outcome string) reflect.Val
 				v := LeafTime
 				s.Index(i).Set(reflect.ValueOf(&v))
 			} else if et.Kind() == reflect.Ptr && et.Elem().Kind() == reflect.Struct || et.Kind() == reflect.Interface || et.Kind() == reflect.Struct {
-				if eo != "alt" {
+				if eo != "alt" && eo != "rogue" {
 					eo = "value"
 				}
 				s.Index(i).Set(e.fabricate(et, ep, field, eo))
